@@ -6,15 +6,12 @@ package smtp
 // of a real go-smtp server), the queue's toSMTPErr and the exterrors helpers.
 
 import (
-	"context"
-	"errors"
 	"fmt"
 	"io"
 	"net"
 	"net/textproto"
 	"regexp"
 	"strconv"
-	"strings"
 	"testing"
 
 	"github.com/emersion/go-smtp"
@@ -22,165 +19,6 @@ import (
 	"github.com/foxcpp/maddy/framework/log"
 	"github.com/foxcpp/maddy/internal/target/queue"
 )
-
-type vTempOnly struct{ t bool }
-
-func (e vTempOnly) Error() string   { return "net error" }
-func (e vTempOnly) Temporary() bool { return e.t }
-
-type vErrGen struct {
-	r       *vRand
-	valid   bool // mostly-valid stream: well-annotated errors
-	classOf int  // class of the outermost annotation below the current position (0 = none)
-}
-
-var vCodes4 = []int{421, 450, 451, 452}
-var vCodes5 = []int{500, 550, 552, 554}
-var vCodesBad = []int{250, 354, 299, 601}
-var vMsgAlphabet = []string{"a", "B", " ", "x", "\u0080", "é", "中", "\U0001F600", "\u007f", "-", "z"}
-
-func (g *vErrGen) msg() string {
-	n := g.r.intn(6)
-	var b strings.Builder
-	b.WriteString("m")
-	for i := 0; i < n; i++ {
-		b.WriteString(vMsgAlphabet[g.r.intn(len(vMsgAlphabet))])
-	}
-	return b.String()
-}
-
-func (g *vErrGen) codeEnch() (int, [3]int) {
-	var code int
-	switch {
-	case !g.valid && g.r.chance(20):
-		code = vCodesBad[g.r.intn(len(vCodesBad))]
-	case g.r.chance(50):
-		code = vCodes4[g.r.intn(len(vCodes4))]
-	default:
-		code = vCodes5[g.r.intn(len(vCodes5))]
-	}
-	e := [3]int{code / 100, g.r.intn(8), g.r.intn(30)}
-	if g.r.chance(10) {
-		e = [3]int{0, 0, 0}
-	}
-	if !g.valid && g.r.chance(30) {
-		e[0] = []int{4, 5, 2, 0}[g.r.intn(4)]
-	}
-	return code, e
-}
-
-var vKeys = []string{"smtp_code", "smtp_enchcode", "smtp_msg", "other1", "other2", "reason"}
-var vKeysCoq = []string{"KCode", "KEnch", "KMsg", "(KOther 1)", "(KOther 2)", "(KOther 3)"}
-
-func cEnch(e [3]int) string {
-	return fmt.Sprintf("{| e0 := %s; e1 := %s; e2 := %s |}", cZ(e[0]), cZ(e[1]), cZ(e[2]))
-}
-
-// kv generates a field map with unique keys; annotation keys only in the malformed stream
-func (g *vErrGen) kv() (map[string]interface{}, string) {
-	m := map[string]interface{}{}
-	var items []string
-	n := g.r.intn(3)
-	for i := 0; i < n; i++ {
-		ki := 3 + g.r.intn(3)
-		if !g.valid && g.r.chance(50) {
-			ki = g.r.intn(3)
-		}
-		if _, dup := m[vKeys[ki]]; dup {
-			continue
-		}
-		var v interface{}
-		var cv string
-		switch g.r.intn(6) {
-		case 0:
-			c, _ := g.codeEnch()
-			v, cv = c, "(FInt "+cZ(c)+")"
-		case 1:
-			_, e := g.codeEnch()
-			v, cv = exterrors.EnhancedCode{e[0], e[1], e[2]}, "(FEnchExt "+cEnch(e)+")"
-		case 2:
-			_, e := g.codeEnch()
-			v, cv = smtp.EnhancedCode{e[0], e[1], e[2]}, "(FEnchGo "+cEnch(e)+")"
-		case 3:
-			s := g.msg()
-			v, cv = s, "(FStr "+cStr(s)+")"
-		case 4:
-			v, cv = nil, "FNil"
-		default:
-			v, cv = 1.5, "FOther"
-		}
-		m[vKeys[ki]] = v
-		items = append(items, "("+vKeysCoq[ki]+", "+cv+")")
-	}
-	return m, cList(items)
-}
-
-// gen returns a Go error, its Coq term and the class of its outermost annotation (0 = none)
-func (g *vErrGen) gen(depth int) (error, string, int) {
-	leaf := depth <= 0 || g.r.chance(20)
-	if leaf {
-		switch g.r.intn(6) {
-		case 0:
-			return errors.New("plain"), "EPlain", 0
-		case 1:
-			t := g.r.chance(50)
-			return vTempOnly{t}, "(ENet " + cBool(t) + ")", 0
-		case 2:
-			if g.r.chance(30) {
-				return context.DeadlineExceeded, "EDeadline", 0
-			}
-			return errors.New("plain2"), "EPlain", 0
-		case 3:
-			if depth <= 0 || g.r.chance(50) {
-				c, e := g.codeEnch()
-				m := g.msg()
-				return &smtp.SMTPError{Code: c, EnhancedCode: smtp.EnhancedCode{e[0], e[1], e[2]}, Message: m},
-					fmt.Sprintf("(EGoSmtp %s %s %s)", cZ(c), cEnch(e), cStr(m)), 0
-			}
-			fallthrough
-		default:
-			c, e := g.codeEnch()
-			m := g.msg()
-			misc, cmisc := g.kv()
-			if g.r.chance(50) {
-				misc = nil
-				cmisc = "[]"
-			}
-			return &exterrors.SMTPError{Code: c, EnhancedCode: exterrors.EnhancedCode{e[0], e[1], e[2]}, Message: m, Misc: misc},
-				fmt.Sprintf("(ESmtp %s %s %s %s None)", cZ(c), cEnch(e), cStr(m), cmisc), c / 100
-		}
-	}
-	switch g.r.intn(5) {
-	case 0:
-		in, cin, cl := g.gen(depth - 1)
-		return fmt.Errorf("ctx: %w", in), "(EWrapW " + cin + ")", cl
-	case 1:
-		in, cin, _ := g.gen(depth - 1)
-		c, e := g.codeEnch()
-		m := g.msg()
-		misc, cmisc := g.kv()
-		se := &exterrors.SMTPError{Code: c, EnhancedCode: exterrors.EnhancedCode{e[0], e[1], e[2]}, Message: m, Misc: misc, Err: in}
-		if g.r.chance(30) {
-			se.Reason = "some reason"
-			se.CheckName = "chk"
-		}
-		return se, fmt.Sprintf("(ESmtp %s %s %s %s (Some %s))", cZ(c), cEnch(e), cStr(m), cmisc, cin), c / 100
-	case 2:
-		in, cin, cl := g.gen(depth - 1)
-		b := g.r.chance(50)
-		if g.valid && cl != 0 {
-			b = cl == 4
-		}
-		return exterrors.WithTemporary(in, b), "(ETemp " + cBool(b) + " " + cin + ")", cl
-	case 3:
-		in, cin, cl := g.gen(depth - 1)
-		kv, ckv := g.kv()
-		return exterrors.WithFields(in, kv), "(EFields " + ckv + " " + cin + ")", cl
-	default:
-		in, cin, cl := g.gen(depth - 1)
-		return fmt.Errorf("again: %w", in), "(EWrapW " + cin + ")", cl
-	}
-}
 
 // --- a real go-smtp server whose RCPT returns what wrapErr built ---
 
@@ -197,9 +35,6 @@ func (s *vSession) Logout() error                                { return nil }
 
 var vEnchRe = regexp.MustCompile(`^(\d+)\.(\d+)\.(\d+) `)
 
-func cReply(code int, e [3]int, msg string) string {
-	return fmt.Sprintf("{| r_code := %s; r_ench := %s; r_msg := %s |}", cZ(code), cEnch(e), cStr(msg))
-}
 
 func TestVerif_C16(t *testing.T) {
 	out := vOpenOut()
